@@ -13,52 +13,54 @@ Definition has_auth (steps : list step) : bool :=
   existsb (fun s => match s with SAuth _ => true | _ => false end) steps.
 
 (* users of the harness: alice 1, bob 2, admin 3, svc-automation 4, autoadm 5, dave 6, carol 7 *)
-Definition mkenv (now : Z) (webui target own : N) : envx :=
-  {| e_now := now; e_limiter := true; e_webui := webui; e_admin := fun u => u =? 3;
+Definition mkenv (now : Z) (webui : N) (deny : list N) (target own : N) : envx :=
+  {| e_now := now; e_limiter := true; e_webui := webui; e_deny := deny; e_admin := fun u => u =? 3;
      e_autoadmin := fun u => (u =? 3) || (u =? 5); e_target := target; e_own := own =? 1; e_check := true |}.
 
-Definition shape_t := (option tlsx * cred)%type.
-Definition get_shape (shapes : list shape_t) (i : N) : shape_t := nth (N.to_nat i) shapes (None, NoCred).
+Definition shape_t := (option tlsx * credx)%type.
+Definition get_shape (shapes : list shape_t) (i : N) : shape_t := nth (N.to_nat i) shapes (None, no_cred).
+(* the deny lists of the run: index 0 is the list of the generated configuration file *)
+Definition get_deny (denies : list (list N)) (i : N) : list N := nth (N.to_nat i) denies [].
+(* shape terms of the case file *)
+Definition ck (t : token) (b : option basicx) : credx := {| k_cookie := Some t; k_basic := b |}.
+Definition nock (b : option basicx) : credx := {| k_cookie := None; k_basic := b |}.
+Definition bas (u : N) (ok : bool) : option basicx := Some {| b_user := u; b_ok := ok; b_err := false |}.
 Definition mkreq (sh : shape_t) (m o : N) : reqx :=
   {| q_meth := meth_of m; q_origin := origin_of o; q_tls := fst sh; q_cred := snd sh |}.
 
 (* cases travel as primitive 63-bit integers (fast to parse); field k of width w *)
 Definition fld (w : N) (off width : N) : N := N.land (N.shiftr w off) (N.ones width).
 
-(* direct calls of checkAuth: word 1 = shape(8) method(2) origin(2) required mask(16) accepted(1)
-   user(8); word 2 = level(16) status written(10, 0 = none) IssuedAt - now + 16384 (16; 32767 = not compared) *)
+(* direct calls of checkAuth: word 1 = shape(10) method(2) origin(2) required mask(16) accepted(1)
+   user(8) deny list(6); word 2 = level(16) status written(10, 0 = none) IssuedAt - now + 16384 (16; 32767 = not compared) *)
 Definition gate_case := (int * int)%type.
-Definition gate_bad (shapes : list shape_t) (now : Z) (c : gate_case) : bool :=
+Definition gate_bad (shapes : list shape_t) (denies : list (list N)) (now : Z) (c : gate_case) : bool :=
   let a := N_of_int (fst c) in let b := N_of_int (snd c) in
-  let s := fld a 0 8 in let m := fld a 8 2 in let o := fld a 10 2 in let req := fld a 12 16 in
-  let adm := fld a 28 1 in let u := fld a 29 8 in
+  let s := fld a 0 10 in let m := fld a 10 2 in let o := fld a 12 2 in let req := fld a 14 16 in
+  let adm := fld a 30 1 in let u := fld a 31 8 in let dl := fld a 39 6 in
   let l := fld b 0 16 in let code := fld b 16 10 in let d := fld b 26 16 in
-  match check_auth now true req (mkreq (get_shape shapes s) m o) with
+  match check_auth now true (get_deny denies dl) req (mkreq (get_shape shapes s) m o) with
   | Admit mu ml miat => negb ((adm =? 1) && (mu =? u) && (ml =? l) &&
                               ((miat =? now)%Z || (d =? 32767) || (miat =? now + Z.of_N d - 16384)%Z))
   | Refuse mcode => negb ((adm =? 0) && (mcode =? code))
   end.
 
-(* probes through the service mux: shape(8) method(2) origin(2) target user(8) own credential
-   present(1) user recorded by the access log(8, 0 = none) observed effects(4) *)
+(* probes through the service mux: shape(10) method(2) origin(2) target user(8) own credential
+   present(1) user recorded by the access log(8, 0 = none) observed effects(4) deny list(6) *)
 Definition route_case := int.
-Definition route_bad (shapes : list shape_t) (now : Z) (webui : N) (r : option row) (c : route_case) : bool :=
+Definition route_bad (shapes : list shape_t) (denies : list (list N)) (now : Z) (webui : N) (r : option row) (c : route_case) : bool :=
   let w := N_of_int c in
-  let s := fld w 0 8 in let m := fld w 8 2 in let o := fld w 10 2 in let t := fld w 12 8 in
-  let own := fld w 20 1 in let u := fld w 21 8 in let e := fld w 29 4 in
+  let s := fld w 0 10 in let m := fld w 10 2 in let o := fld w 12 2 in let t := fld w 14 8 in
+  let own := fld w 22 1 in let u := fld w 23 8 in let e := fld w 31 4 in let dl := fld w 35 6 in
   match r with
   | None => true
   | Some r =>
-      let '(id, effs) := run (mkenv now webui t own) (mkreq (get_shape shapes s) m o) (rt_steps r) None in
+      let '(id, effs) := run (mkenv now webui (get_deny denies dl) t own) (mkreq (get_shape shapes s) m o) (rt_steps r) None in
       let mu := match id with Some (u', _) => u' | None => 0 end in
       (* u = 255: the handler panicked before the access log was written — identity unobservable *)
       negb ((if has_auth (rt_steps r) && negb (u =? 255) then mu =? u else true) && (N.land e (effs_code effs) =? e))
   end.
 
-Definition route_group := (string * N * list route_case)%type.
-Definition flatten_groups (shapes : list shape_t) (now : Z) (gs : list route_group) : list bool :=
-  flat_map (fun g : route_group => let '(k, webui, cs) := g in
-                                   let r := find_row k in map (route_bad shapes now webui r) cs) gs.
 
 (* indices (as binary numbers: cheap to print whatever their size) of the failing cases, at most
    the first 20, and how many there are *)
@@ -84,8 +86,15 @@ Definition merge_chunks (rs : list chunk_result) : chunk_result :=
 Definition chunk_total (r : chunk_result) : N := fst (fst r).
 Definition chunk_bad (r : chunk_result) : N := snd (fst r).
 Definition chunk_first (r : chunk_result) : list N := snd r.
-Definition route_chunk (shapes : list shape_t) (now : Z) (offset : N) (key : string) (webui : N)
+Definition route_chunk (shapes : list shape_t) (denies : list (list N)) (now : Z) (offset : N) (key : string) (webui : N)
            (cs : list route_case) : chunk_result :=
-  let r := find_row key in eval_chunk offset (map (route_bad shapes now webui r) cs).
-Definition gate_chunk (shapes : list shape_t) (now : Z) (offset : N) (cs : list gate_case) : chunk_result :=
-  eval_chunk offset (map (gate_bad shapes now) cs).
+  let r := find_row key in eval_chunk offset (map (route_bad shapes denies now webui r) cs).
+Definition gate_chunk (shapes : list shape_t) (denies : list (list N)) (now : Z) (offset : N) (cs : list gate_case) : chunk_result :=
+  eval_chunk offset (map (gate_bad shapes denies now) cs).
+
+(* getRequiredWebUIAuthLevel() of a loaded configuration = webui_level of its backend list
+   (backends travel as 0 password, 1 federated, 2 U2F, 3 SymantecVIP, 4 TOTP, 5 Okta2FA, 6 bootstrap OTP, other) *)
+Definition backend_of (n : N) : backend :=
+  if n =? 0 then BPassword else if n =? 1 then BFederated else if n =? 2 then BU2F else if n =? 3 then BVIP
+  else if n =? 4 then BTOTP else if n =? 5 then BOkta else if n =? 6 then BBootstrap else BOther.
+Definition webui_bad (c : list N * N) : bool := negb (webui_level (map backend_of (fst c)) =? snd c).
